@@ -190,8 +190,20 @@ impl<'a> Arbitrary<'a> for Label {
 pub struct Domain(Vec<Label>);
 
 impl Domain {
+    /// Does this domain end with all the labels of other?  (ASCII case-insensitive, RFC 4343)
     pub fn ends_with(&self, other: &Self) -> bool {
-        self.0.ends_with(&other.0)
+        if other.0.len() > self.0.len() {
+            return false;
+        }
+        let skip = self.0.len() - other.0.len();
+        let mut i = 0;
+        while i < other.0.len() {
+            if !self.0[skip + i].0.eq_ignore_ascii_case(&other.0[i].0) {
+                return false;
+            }
+            i += 1;
+        }
+        true
     }
 }
 
